@@ -244,6 +244,11 @@ Example C18_ex_print :
   print (mkAddr ARemoteStation (Some 65534%Z) (Some [1; 2; 3; 4; 186; 192]) None None)
   = Ok [54; 53; 53; 51; 52; 58; 49; 46; 50; 46; 51; 46; 52].
 Proof. vm_compute. reflexivity. Qed.
+(* a 7-octet MAC ending in 0xBAC0 behind a network prints in hex, not as a dotted quad *)
+Example C18_ex_print7 :
+  print (mkAddr ARemoteStation (Some 1%Z) (Some [10; 20; 30; 40; 50; 186; 192]) None None)
+  = Ok ([49; 58; 48; 120] ++ btox [10; 20; 30; 40; 50; 186; 192]).
+Proof. vm_compute. reflexivity. Qed.
 Example C18_ex_digits : digits [50; 53; 53] = true /\ dec_val [50; 53; 53] = 255 /\ hex_pairs [48; 97; 70; 102] = true
   /\ aton_part [48; 49; 48] = Some 8 /\ opt_digits (Some [50; 52]) = true.
 Proof. vm_compute. repeat split. Qed.
